@@ -252,7 +252,7 @@ func gParse(c *Ctx, rule string) {
 	}
 	c.count("gem_writer_functions", nf)
 	c.count("gem_emission_paths", np)
-	c.floor(rule, 40)
+	c.floor(rule, 25)
 }
 
 // ---------------------------------------------------------------- G-ERR
@@ -775,7 +775,7 @@ func gMap(c *Ctx, rule string) {
 		}
 	}
 	c.count("sourcemap_add_sites_on_paths", nadd)
-	c.floor(rule, 40)
+	c.floor(rule, 15) // (sites; duplicated write+register blocks may be folded into one helper)
 }
 
 // whitespaceFuncOK: see litHoleOK.
